@@ -530,7 +530,7 @@ def scope_rest(kind, tier):
     return a, a
 
 
-LAYOUTS = ("flat", "grid", "single_first", "single_last", "len1")
+LAYOUTS = ("flat", "grid", "single_first", "single_last", "len1", "first_len1", "first_row")
 
 
 def enum_coll(tier, seed):
@@ -586,6 +586,21 @@ def case_coll(ctx, cfg):
         elif lay == "len1":
             shape = (m, 1)
         args = []
+        if lay in ("first_len1", "first_row"):
+            # numpy-style broadcasting between collections of different shapes: the first argument (fixed by `head`) is a
+            # collection of shape (1,) against (m,), resp. of shape (b,) against (a, b)
+            first_fixed = all(p < len(head) for p in argspec[0][1])
+            if not first_fixed:
+                return None, None, shape, True
+            shape = (m,) if lay == "first_len1" else _factor(m)
+            fshape = (1,) if lay == "first_len1" else (shape[-1],)
+            c0, pos0 = argspec[0]
+            args.append(build_coll(G, c0, [[rows[sel[0]][p]] * fshape[0] for p in pos0], dtype, n, fshape))
+            for c, pos in argspec[1:]:
+                args.append(build_coll(G, c, [[rows[i][p] for i in sel] for p in pos], dtype, n, shape))
+            res, e = ctx.call(f, *args)
+            ctx.trace(m)
+            return res, e, shape, False
         for ai, (c, pos) in enumerate(argspec):
             single = (lay == "single_first" and ai == 0 and all(p < len(head) for p in pos)) or (
                 lay == "single_last" and ai == len(argspec) - 1 and len({tuple(rows[i][p] for p in pos) for i in sel}) == 1
